@@ -94,6 +94,9 @@ T2 == UNION {UNION {UNION {{Case("T2", "wrapped", <<F("c", C2(pp[1], o, pp[2], n
 ArrVals(p) == LET xs == {Leaf(x) : x \in LeafVals(p)} IN
               {SeqV(<<>>)} \cup {SeqV(<<a>>) : a \in xs} \cup {SeqV(<<q[1], q[2]>>) : q \in PairOf(xs)}
 T3 == UNION {{Case("T3", "wrapped", <<F("a", Arr(Prim(p)), 0, 1)>>, <<v>>, <<Arr(Prim(p))>>, <<v>>) : v \in ArrVals(p) \cup {Nil}} : p \in Leaves}
+\* T3b: an array ITEM that is nil: it keeps its place (an xsi:nil item), the items after it keep their indexes
+T3bV(p) == LET x == CHOOSE y \in LeafVals(p) : TRUE IN {SeqV(<<Leaf(x), Nil, Leaf(x), Nil>>), SeqV(<<Nil>>)}
+T3b == UNION {{Case("T3", "wrapped", <<F("a", Arr(Prim(p)), 0, 1)>>, <<v>>, <<Arr(Prim(p))>>, <<v>>) : v \in T3bV(p)} : p \in {"Integer", "Unicode"}}
 \* T4: arrays of objects, objects holding arrays, nesting across two namespaces
 D4 == Obj("D", "urn:other", <<F("i", Prim("Integer"), 0, 1), F("s", Prim("Unicode"), 1, 1)>>)
 C4 == Obj("C", "tns", <<F("d", D4, 0, 1), F("ds", Arr(D4), 0, 1), F("m", D4, 0, 99), F("n", Prim("Integer"), 0, 1)>>)
@@ -106,6 +109,7 @@ C4Vals == {ObjV("C", <<d, ds, m, n>>) : d \in DVals \cup {Nil},
 T4 == {Case("T4", "wrapped", <<F("c", C4, 0, 1)>>, <<v>>, <<C4>>, <<v>>) : v \in C4Vals}
       \cup {Case("T4", "wrapped", <<F("a", Arr(C4), 0, 1)>>, <<SeqV(<<v>>)>>, <<Arr(C4)>>, <<SeqV(<<v>>)>>) :
                v \in {ObjV("C", <<Dv(Leaf("1"), "q"), Nil, Nil, Leaf("9")>>), ObjV("C", <<Nil, SeqV(<<Dv(Nil, "p")>>), SeqV(<<Dv(Nil, "p")>>), Nil>>)}}
+      \cup {Case("T4", "wrapped", <<F("a", Arr(D4), 0, 1)>>, <<SeqV(<<Dv(Leaf("1"), "q"), Nil, Dv(Nil, "p")>>)>>, <<Arr(D4)>>, <<SeqV(<<Dv(Nil, "p"), Nil, Dv(Leaf("1"), "q")>>)>>)}
 \* T5: inheritance - B(A) writes A's fields first, each in the namespace of its declaring class
 A5 == Obj("A", "tns", <<F("a1", Prim("Integer"), 0, 1), F("a2", Prim("Unicode"), 0, 1)>>)
 B5 == Sub("B", "urn:other", <<F("b1", Prim("Boolean"), 0, 1)>>, A5)
@@ -156,5 +160,5 @@ T9 == {[Case("T9", "wrapped", <<F("a", Prim("Integer"), 0, 1)>>, <<Leaf("5")>>, 
           EXCEPT !.inh = <<H1, H2>>, !.inhvals = <<i1, i2>>, !.outh = <<H1, H2>>, !.outhvals = <<o1, o2>>] :
              i1 \in H1Vals, i2 \in H2Vals, o1 \in H1Vals, o2 \in H2Vals}
 
-Cases == T9 \cup T1 \cup T2 \cup T3 \cup T4 \cup T5 \cup T6 \cup T6b \cup T6c \cup T7 \cup T8
+Cases == T9 \cup T1 \cup T2 \cup T3 \cup T3b \cup T4 \cup T5 \cup T6 \cup T6b \cup T6c \cup T7 \cup T8
 =============================================================================
